@@ -104,6 +104,8 @@ type FixedProc struct {
 	// KillAtMs > 0: one Kill that many ms after the start (e.g. while the last output of a process that has already
 	// exited is still being written by a slow log writer)
 	KillAtMs int
+	// KillPast: that Kill carries a deadline that is already over
+	KillPast bool
 	// SinkMs > 0: the log writer of this process takes that long per write
 	SinkMs int
 }
@@ -164,9 +166,10 @@ func Run(opt Options) []rec.Event {
 		if opt.Burst {
 			beh, delay, ops = []string{"exit0", "exit3", "exit137"}[rnd.Intn(3)], 0, 0
 		}
-		killAt, sinkMs := 0, 0
+		killAt, sinkMs, killPast := 0, 0, false
 		if i < len(opt.Fixed) {
 			beh, delay, ops, killAt, sinkMs = opt.Fixed[i].Beh, opt.Fixed[i].Delay, 0, opt.Fixed[i].KillAtMs, opt.Fixed[i].SinkMs
+			killPast = opt.Fixed[i].KillPast
 		}
 		seed := rnd.Int63()
 		idx := i
@@ -255,9 +258,13 @@ func Run(opt Options) []rec.Event {
 				if d := time.Duration(killAt)*time.Millisecond - time.Since(t0exec); d > 0 {
 					time.Sleep(d)
 				}
-				r.Emit(name, "KillCall", "name", name, "past", false)
-				err := sv.Kill(context.Background(), &supvmodel.KillRequest{Domain: "runtime", Name: name, Deadline: time.Now().Add(3 * time.Second)})
-				r.Emit(name, "KillRet", "name", name, "err", errs(err), "gone", !real || err != nil || gone(pid), "past", false)
+				dl := time.Now().Add(3 * time.Second)
+				if killPast {
+					dl = time.Now().Add(-time.Second)
+				}
+				r.Emit(name, "KillCall", "name", name, "past", killPast)
+				err := sv.Kill(context.Background(), &supvmodel.KillRequest{Domain: "runtime", Name: name, Deadline: dl})
+				r.Emit(name, "KillRet", "name", name, "err", errs(err), "gone", !real || err != nil || gone(pid), "past", killPast)
 			}
 			if real && (beh == "fork" || beh == "orphanq" || (beh == "orphan0" && idx%2 == 1)) && !opt.Burst {
 				// Terminate delivers SIGTERM to the whole group - also when the leader has exited by then and only
